@@ -10,7 +10,7 @@ use crate::operator::conj::Conj;
 use crate::operator::OperatorParam;
 use crate::solver::{Solve, Solver};
 use crate::state::State;
-use crate::stream::Stream;
+use crate::stream::{LazyStream, Stream, StreamIterator};
 use crate::user::User;
 use crate::GoalCast;
 use std::rc::Rc;
@@ -57,11 +57,88 @@ where
     E: Engine<U>,
 {
     fn solve(&self, solver: &Solver<U, E>, state: State<U, E>) -> Stream<U, E> {
-        let mut stream = solver.start(&self.first, state.clone());
+        ClauseHead::stream(solver, &self.first, &self.rest, &self.next, state, false)
+    }
+}
 
-        match solver.peek(&mut stream) {
-            Some(_) => Stream::bind(stream, self.rest.clone()),
-            None => self.next.solve(solver, state),
+/// The head goal of a `conda`/`condu` clause, searched one engine step at a time as a node of
+/// the stream. A head that searches for long (or for ever) then shares its turns with the rest
+/// of the search instead of running to its first answer inside a single step, which would
+/// starve every sibling branch of an enclosing disjunction.
+#[derive(Derivative)]
+#[derivative(Clone(bound = "U: User"))]
+pub(crate) struct ClauseHead<U, E>
+where
+    U: User,
+    E: Engine<U>,
+{
+    head: Stream<U, E>,
+    rest: Goal<U, E>,
+    next: Goal<U, E>,
+    state: State<U, E>,
+    // Keep only the first answer of the head (condu)
+    cut: bool,
+    done: bool,
+}
+
+impl<U, E> ClauseHead<U, E>
+where
+    U: User,
+    E: Engine<U>,
+{
+    pub(crate) fn stream(
+        solver: &Solver<U, E>,
+        first: &Goal<U, E>,
+        rest: &Goal<U, E>,
+        next: &Goal<U, E>,
+        state: State<U, E>,
+        cut: bool,
+    ) -> Stream<U, E> {
+        let head = solver.start(first, state.clone());
+        Stream::lazy(LazyStream::iterator(Box::new(ClauseHead {
+            head,
+            rest: rest.clone(),
+            next: next.clone(),
+            state,
+            cut,
+            done: false,
+        })))
+    }
+}
+
+impl<U, E> StreamIterator<U, E> for ClauseHead<U, E>
+where
+    U: User,
+    E: Engine<U>,
+{
+    fn clone_box(&self) -> Box<dyn StreamIterator<U, E>> {
+        Box::new(self.clone())
+    }
+
+    fn next(&mut self, solver: &Solver<U, E>) -> Option<Stream<U, E>> {
+        if self.done {
+            return None;
+        }
+        match std::mem::replace(&mut self.head, Stream::Empty) {
+            Stream::Lazy(LazyStream(lazy)) => {
+                // One more step of the head; no answer yet.
+                self.head = solver.engine().step(solver, *lazy);
+                Some(Stream::Empty)
+            }
+            Stream::Empty => {
+                // The head has no answers: try the next clause.
+                self.done = true;
+                Some(solver.start(&self.next, self.state.clone()))
+            }
+            Stream::Cons(a, _) if self.cut => {
+                self.done = true;
+                Some(Stream::bind(Stream::Unit(a), self.rest.clone()))
+            }
+            stream => {
+                // The head has an answer: commit to this clause.
+                self.done = true;
+                Some(Stream::bind(stream, self.rest.clone()))
+            }
         }
     }
 }
